@@ -155,10 +155,77 @@ theorem onebyone_root (p : Nat) (invroot cast32 : α → α) (a ridge : α) (ha 
   simp only [oneByOne, hcast, natPow_eq_pow, absS_eq_abs, hinv _ hpos]
   simp
 
+/-- the matrix handed to `eigh` is `A_d = mask(A) + d·I_s` -/
+theorem eigh_input_is_damped (s : Nat) (A : Mat α n n) (ridge : α) :
+    (Matrix.of (regularized s A ridge) : MatR α n) = dampedM s A ridge := by
+  ext i j
+  simp [regularized, Mat.add, Mat.smul, dampedM, maskM, Es]
+
+/-- eigh root: under the `eigh` specification for the regularised input (`U` orthogonal, `U diag(e) Uᵀ = A_d`, the
+`n − s` eigenvalues of the padding are `0` and come first, the others are `≥ d > 0`, and the eigenvectors of the non-zero
+eigenvalues span the unpadded coordinates: `U diag(flip(ix)) Uᵀ = I_s`) and the scalar kernel specifications,
+`X^p · A_d = I_s`, `X` is symmetric and exactly zero on padding rows and columns. -/
+theorem eigh_root_exact [BEq α] [LawfulBEq α] (s p : Nat) (hs : s ≠ 0) (sqrt invroot : α → α) (ridge : α)
+    (hridge : 0 < ridge) (A U : Mat α n n) (e : Vec α n)
+    (hU1 : (Matrix.of U : MatR α n)ᵀ * Matrix.of U = 1) (hU2 : (Matrix.of U : MatR α n) * (Matrix.of U)ᵀ = 1)
+    (hdec : (Matrix.of U : MatR α n) * Matrix.diagonal e * (Matrix.of U)ᵀ = Matrix.of (regularized s A ridge))
+    (hproj : (Matrix.of U : MatR α n) * Matrix.diagonal (flipIx n s) * (Matrix.of U)ᵀ = Es α n s)
+    (hpos : ∀ i : Fin n, n - 1 - i.val < s → ridge ≤ e i) (hzero : ∀ i : Fin n, ¬ n - 1 - i.val < s → e i = 0)
+    (hsqrt : ∀ x, 0 ≤ x → sqrt x * sqrt x = x) (hinv : ∀ x, 0 < x → 0 ≤ invroot x ∧ invroot x ^ p * x = 1) :
+    let X : MatR α n := Matrix.of (eighRoot s sqrt invroot ridge A U e).1
+    X ^ p * dampedM s A ridge = Es α n s ∧ Xᵀ = X ∧ ∀ i j : Fin n, s ≤ i.val ∨ s ≤ j.val → X i j = 0 := by
+  intro X
+  have hX : X = Matrix.of (eighVal sqrt U (eighInvE s invroot ridge e)) := by
+    simp [X, eighRoot, hs]
+  obtain ⟨h1, h2, h3, h4⟩ := eigh_root_core s p sqrt invroot ridge hridge U e hU1 hU2 hpos hzero hsqrt hinv
+  rw [hdec, eigh_input_is_damped, hproj] at h1
+  rw [hproj] at h3 h4
+  rw [hX]
+  exact ⟨h1, h2, fun i j hij => zero_of_Es_mul s _ h4 h3 i j hij⟩
+
+/-- the error figure of the eigh routine is, by definition, the masked residual of the decomposition it was handed -/
+theorem eigh_error_is_residual [BEq α] (s : Nat) (hs : s ≠ 0) (sqrt invroot : α → α) (ridge : α) (A U : Mat α n n)
+    (e : Vec α n) :
+    (eighRoot s sqrt invroot ridge A U e).2 =
+      Mat.maxAbs (fun i j => ((Mat.mul (Mat.transpose U) (Mat.mul (regularized s A ridge) U)) i j -
+        (if i = j then e i * flipIx n s i else 0)) * flipIx n s j : Mat α n n) := by
+  simp [eighRoot, hs, eighErr]
+
+/-- Rayleigh bound (partial): the power-iteration estimate never exceeds any `lam ≥ 0` that bounds the quadratic form,
+`xᵀ A x ≤ lam · xᵀ x` for all `x` (i.e. `lam·1 − A` positive semi-definite; for real symmetric `A` the least such `lam`
+is `λ_max(A)`).  Missing for the full `rayleigh_le_max_eig`: the identification of that bound with Mathlib's largest
+eigenvalue through the spectral theorem. -/
+theorem rayleigh_le_max_eig_partial (sqrt : α → α) (hsqrt : ∀ x, 0 ≤ x → sqrt x * sqrt x = x) (tol : α) (numIters : Nat)
+    (A : Mat α n n) (v0 : Vec α n) (lam : α) (hlam : 0 ≤ lam)
+    (hmax : ∀ x : Vec α n, dot x (Mat.mulVec A x) ≤ lam * dot x x) :
+    powerIteration sqrt tol numIters A v0 ≤ lam := by
+  unfold powerIteration
+  exact piLoop_le sqrt hsqrt tol A lam hlam hmax numIters numIters _ hlam
+
+/-- the ridge is therefore never scaled by more than such a bound -/
+theorem ridge_le_of_rayleigh (eps maxEv floor lam : α) (heps : 0 ≤ eps) (h : maxEv ≤ lam) (hf : floor ≤ lam) :
+    ridgeOf eps maxEv floor ≤ eps * lam := by
+  unfold ridgeOf; rw [maxS_eq_max]
+  exact mul_le_mul_of_nonneg_left (max_le h hf) heps
+
 /-- hypotheses of the Newton theorems are satisfiable: `ℚ`, `p = 1` (so `rootp = id`), constants of the source -/
 example : ∃ (c : NConsts ℚ) (rootp sqrt : ℚ → ℚ), 1 < c.rmax ∧ 0 ≤ c.tol ∧ 1 ≤ c.numTries ∧
     (∀ z, 0 ≤ z → rootp z ^ 1 = z) ∧ (∀ x, 0 ≤ sqrt x) :=
   ⟨{ numIters := 100, tol := 1 / 1000000, rmax := 6 / 5, retryThr := 1 / 20, numTries := 6 }, id, fun _ => 3,
     by norm_num, by norm_num, by norm_num, fun z _ => by simp, fun _ => by norm_num⟩
+
+/-- the eigh hypotheses are satisfiable: `n = 1`, `s = 1`, `A = (3)`, ridge `1`, `U = (1)`, `e = (4)`, `p = 1`,
+`invroot x = 1/x`, `sqrt` any function with `sqrt (1/4) = 1/2` -/
+example : ∃ (U A : Mat ℚ 1 1) (e : Vec ℚ 1),
+    (Matrix.of U : MatR ℚ 1)ᵀ * Matrix.of U = 1 ∧
+    (Matrix.of U : MatR ℚ 1) * Matrix.diagonal e * (Matrix.of U)ᵀ = Matrix.of (regularized 1 A 1) ∧
+    (Matrix.of U : MatR ℚ 1) * Matrix.diagonal (flipIx 1 1) * (Matrix.of U)ᵀ = Es ℚ 1 1 ∧
+    (∀ i : Fin 1, 1 - 1 - i.val < 1 → (1 : ℚ) ≤ e i) := by
+  refine ⟨fun _ _ => 1, fun _ _ => 3, fun _ => 4, ?_, ?_, ?_, ?_⟩
+  · ext i j; simp [Matrix.mul_apply, Matrix.one_apply, Subsingleton.elim i j]
+  · ext i j; simp [Matrix.mul_apply, regularized, Mat.add, Mat.smul, Mat.mask, Mat.maskedId, Mat.one, Mat.ix,
+      Subsingleton.elim i j]; norm_num
+  · ext i j; simp [Matrix.mul_apply, flipIx, Es, Mat.maskedId, Mat.one, Mat.ix, Subsingleton.elim i j]
+  · intro i _; norm_num
 
 end PrecondVerif.C01
